@@ -1,6 +1,8 @@
 //! B1: dump the real code's complete output for an enumerated input set, in the order TLC explores it.
 use crate::util::*;
 use kmer::kmer::KmerGenerator;
+use kmer::kmer_minimisers::KmerMinimiserGenerator;
+use kmer::minimiser::MinimiserGenerator;
 use serde_json::json;
 
 /// table kmer <k> <maxlen> <seed>
@@ -17,4 +19,77 @@ pub fn kmer(k: usize, maxlen: usize, seed: u64) {
         t.push(json!(flat));
     });
     t.flush();
+}
+
+fn small(x: u64) -> i64 {
+    if x == u64::MAX {
+        -1
+    } else if x > i32::MAX as u64 {
+        -2
+    } else {
+        x as i64
+    }
+}
+
+fn alpha(a: &str) -> Vec<u8> {
+    a.bytes().map(|b| b - b'0').collect()
+}
+
+/// table minimiser <w> <m> <maxlen> <seed> <alpha>   (alpha: class digits, e.g. 01234)
+pub fn minimiser(w: usize, m: usize, maxlen: usize, seed: u64, a: &str, kvariant: bool) {
+    let al = alpha(a);
+    let mut rng = Rng::new(seed);
+    let mut t = Dense::new();
+    for_all_strings(al.len() as u8, maxlen, |ix| {
+        let cls: Vec<u8> = ix.iter().map(|&i| al[i as usize]).collect();
+        let bytes = render(&cls, &mut rng, false);
+        let mut flat: Vec<i64> = Vec::new();
+        if kvariant {
+            for (v, s, e, ks) in KmerMinimiserGenerator::new(&bytes, w, m) {
+                flat.push(small(v));
+                flat.push(s as i64);
+                flat.push(e as i64);
+                flat.push(ks.len() as i64);
+                for k in ks {
+                    flat.push(small(k));
+                }
+            }
+        } else {
+            for (v, s, e) in MinimiserGenerator::new(&bytes, w, m) {
+                flat.push(small(v));
+                flat.push(s as i64);
+                flat.push(e as i64);
+            }
+        }
+        t.push(json!(flat));
+    });
+    t.flush();
+}
+
+/// table revcomp <kmax>: for every k <= kmax and every x < 4^k: [rev_comp(x,k), letters of numeric_to_kmer(x,k)...]
+pub fn revcomp(kmax: usize) {
+    for k in 1..=kmax {
+        let mut t = Dense::new();
+        for x in 0..4u64.pow(k as u32) {
+            let mut e: Vec<i64> = vec![small(KmerGenerator::rev_comp(x, k))];
+            for b in kmer::numeric_to_kmer(x, k).bytes() {
+                e.push(b as i64);
+            }
+            t.push(json!(e));
+        }
+        t.flush();
+    }
+}
+
+/// table posmap <kmax>: line k = {pos: min_mer_pos_map, at: pos_min_mer_map as a list, count}
+pub fn posmap(kmax: usize) {
+    for k in 1..=kmax {
+        let (pos, at, count) = KmerGenerator::kmer_pos_maps(k);
+        // the inverse map as a list indexed by rank; a missing rank is shown as -1
+        let mut keys: Vec<usize> = at.keys().copied().collect();
+        keys.sort();
+        let n = keys.last().map(|x| x + 1).unwrap_or(0).max(at.len());
+        let atl: Vec<i64> = (0..n).map(|p| at.get(&p).map(|&x| small(x)).unwrap_or(-1)).collect();
+        println!("{}", json!({"pos": pos, "at": atl, "count": count}));
+    }
 }
